@@ -16,15 +16,20 @@ func init() {
 		ID:    "C17",
 		Title: "Scarce capacity is never over-committed in a scheduling pass",
 		Explanation: "Decides the bookkeeping discipline, not the arithmetic. Reservations: (1) the only code that writes ReservationManager state is Reserve and Release, called only from NodeClaim.Add (via releaseReservedOfferings); " +
-			"(2) Reserve decrements only when the host does not already hold the id, fail-stops below zero and always records the holder; Release increments only for a held id and removes the holder; CanReserve says yes only for a holder or non-zero capacity; the constructor keeps the minimum capacity per id; " +
+			"(2) Reserve decrements only when the host does not already hold the id, fail-stops below zero and always records the holder; Release increments only for a held id and removes the holder; CanReserve says yes only for a holder or non-zero capacity; the constructor keeps the minimum capacity per id, taken over every reserved offering of every NodePool's catalogue " +
+			"(an offering's turn ends without the entry written only if it is not reserved or the entry is already no larger — availability or a zero capacity is no excuse — and no loop of the constructor is left early); " +
 			"(3) an offering is put on the to-reserve list only if it is reserved, available, compatible with the updated requirements and CanReserve said yes for this host; Add reserves exactly that list, releases current∖updated and then replaces the list; the list given to Add is the one CanAdd returned for the chosen candidate; " +
 			"(4) strict mode: offeringsToReserve can succeed only if the feature is off, the mode is not strict, or something was reserved whenever a compatible reserved offering exists or the claim held reservations; hasCompatibleOffering is set on every path that found a compatible offering; " +
 			"trySchedule returns a reserved-offering error before relaxing; a reserved-offering error from template i clears any choice made by a later template; provisioning passes DisableReservedCapacityFallback, which selects the strict mode; " +
 			"(5) FinalizeScheduling pins a claim holding reservations to capacity-type reserved and to exactly the held reservation ids. " +
 			"DRA: (6) the cone of Allocator.Allocate and of both CanAdd functions contains no writer of AllocationTracker, Allocator or ReservationManager state; tracker state is written only under Commit, ReleaseInstanceType(s) and the constructor; " +
-			"(7) in the DFS, a device is recorded only after the availability test for its kind (IsAllocated and the local set for exclusive devices, checkCapacity for shared ones) and the counter test, and every failing exit after recording undoes it.",
+			"(7) in the DFS, a device is recorded only after the availability test for its kind (IsAllocated and the local set for exclusive devices, checkCapacity for shared ones) and the counter test, and every failing exit after recording undoes it; " +
+			"(8) what a commit adds to a NodeClaim's stored consumption of a shared device (commitCapacity, commitTemplateCapacity, commitCounters) and to the DFS-local account (addCapacity) is ACCUMULATED: " +
+			"the entry written back is the entry read from the same map under the same key with the committed quantity Add-ed, for every element of the committed map; a whole entry is taken over only where none was stored; " +
+			"no merge loop is left early or skipped (the maximum is taken only across instance types, in pessimisticCapacityMax).",
 		NotCovered: []string{
-			"the allocator's exclusivity / capacity / counter arithmetic across superposed instance types (value-level; not decidable by this technique)",
+			"the allocator's exclusivity / capacity / counter arithmetic across superposed instance types (value-level; not decidable by this technique) — decided is only WHICH operation combines a stored and a committed quantity and that every committed entry takes part (ACC1-4), not that the quantities are the right ones",
+			"the budgets that are decremented by the delta of the pessimistic maximum (RemainingCounters, template remaining counters) and the DFS-local counter account (deductAllocatingCounters) are not read by ACC1-4",
 			"that checkCapacity / checkCounters computations are numerically right (of the pessimistic maximum only the direction of the comparison is decided)",
 			"reservation leaks (a dropped NodeClaim keeps its reservations) — under-use, not over-commit",
 		},
@@ -46,7 +51,79 @@ func c17Rules(tier string) []Rule {
 		NOREACH{ID: "C17.NR1", Fn: "(*scheduling/dynamicresources.AllocationTracker).Commit", From: `^call \(\*scheduling/dynamicresources\.AllocationTracker\)\.commitTemplateCounters\(`,
 			Sink: `^call \(\*scheduling/dynamicresources\.AllocationTracker\)\.InitTemplateRemainingCounters\(`, Note: "counters are initialised before they are consumed"},
 		POST{ID: "C17.POST12", Fn: "(*scheduling/dynamicresources.AllocationTracker).Commit", From: "", Must: []string{`^call \(\*scheduling/dynamicresources\.AllocationTracker\)\.commitTemplateCounters\(\$0, \$1\.nodeClaimID, \$1\.templateCounterConsumptionByIT\)$`}})
+	rules = append(rules, c17MinOverAll()...)
+	rules = append(rules, c17Accumulate()...)
 	return rules
+}
+
+// What a NodeClaim consumes of a shared device is the SUM of its commits (per instance type, device and dimension); only
+// ACROSS instance types is the maximum taken (pessimisticCapacityMax, DOM10). Whether the sum is computed right is
+// arithmetic; which operation combines the stored and the new quantity is structure: the entry written back is the entry
+// read from the same map under the same key with the committed quantity Add-ed to it — for every element of the committed
+// map, with a whole entry taken over only where none was stored, and no loop left early. The same shape carries the
+// template-device consumption and the DFS-local accounting (addCapacity).
+func c17Accumulate() []Rule {
+	const q = `apim/api/resource\.Quantity`
+	spec := func(what, state, value string, merge, take int) core.MergeSpec {
+		return core.MergeSpec{
+			State:    state,
+			Value:    value,
+			Op:       `^\(\*` + q + `\)\.Add$`,
+			ReadOnly: `^\(\*?` + q + `\)\.(Cmp|CmpInt64|Sign|IsZero|Equal|Value|MilliValue|String|AsInt64|AsDec|AsApproximateFloat64)$`,
+			Copy:     `^\(` + q + `\)\.DeepCopy$`,
+			MinMerge: merge, MinTake: take, What: what,
+		}
+	}
+	const at = "(*scheduling/dynamicresources.AllocationTracker)."
+	return []Rule{
+		// Min: the innermost merge; take-overs: the claim's table created when absent, instance type / device taken over when
+		// absent, the device's in-flight table created when nil (the in-flight delta itself is a plain Add onto the entry read)
+		core.Custom{ID: "C17.ACC1", Kind: "ACC", Run: func(w *core.World, id string) []core.Result {
+			return core.AccumulatingMerge(w, id, "ACC", at+"commitCapacity", spec("shared-device capacity consumed by a NodeClaim",
+				`^\$0\.(consumedCapacityByNodeClaimIT|InflightConsumedCapacity)$`, `^`+q+`$`, 1, 4))
+		}},
+		core.Custom{ID: "C17.ACC2", Kind: "ACC", Run: func(w *core.World, id string) []core.Result {
+			return core.AccumulatingMerge(w, id, "ACC", at+"commitTemplateCapacity", spec("template-device capacity consumed by a NodeClaim",
+				`^\$0\.templateConsumedCapacity$`, `^`+q+`$`, 1, 3))
+		}},
+		core.Custom{ID: "C17.ACC3", Kind: "ACC", Run: func(w *core.World, id string) []core.Result {
+			return core.AccumulatingMerge(w, id, "ACC", "scheduling/dynamicresources.addCapacity", spec("capacity a single Allocate call has handed out so far",
+				`^\$0$`, `^`+q+`$`, 1, 0))
+		}},
+		// the counter twin: same shape one level deeper (pool / counter set / counter), the quantity is the Counter's Value.
+		// RemainingCounters (a budget that is decremented by the delta of the pessimistic maximum) is not this rule's state.
+		core.Custom{ID: "C17.ACC4", Kind: "ACC", Run: func(w *core.World, id string) []core.Result {
+			return core.AccumulatingMerge(w, id, "ACC", at+"commitCounters", spec("shared counters consumed by a NodeClaim",
+				`^\$0\.countersByNodeClaimIT$`, `^k8s\.io/api/resource/v1\.Counter$`, 1, 4))
+		}},
+	}
+}
+
+// The capacity table of the reservation manager is the minimum over EVERY reserved offering of every NodePool's catalogue
+// that names the id — available or not, whatever its capacity (a NodePool whose snapshot already sees the reservation
+// exhausted must lower the table for the pool with the stale view). DOM3 says when an entry may be written; these rows say
+// that no reserved offering gets past the comparison: an offering's turn ends without the entry having been written only
+// if the offering is not reserved or the entry is already no larger, and none of the three loops is left before its end.
+func c17MinOverAll() []Rule {
+	const (
+		fn       = "sched.NewReservationManager"
+		offLoop  = `+^.* < len\(next\(range\(\$0\)\)#2\[.*\]\.Offerings\)$`
+		offDone  = `-^.* < len\(next\(range\(\$0\)\)#2\[.*\]\.Offerings\)$`
+		itLoop   = `+^.* < len\(next\(range\(\$0\)\)#2\)$`
+		itDone   = `-^.* < len\(next\(range\(\$0\)\)#2\)$`
+		poolLoop = `+^next\(range\(\$0\)\)#0$`
+		poolDone = `-^next\(range\(\$0\)\)#0$`
+	)
+	return []Rule{
+		ITER{ID: "C17.ITER1", Fn: fn, Loop: offLoop, Gates: gates(G(
+			`-^\(\*cloudprovider\.Offering\)\.CapacityType\(next\(range\(\$0\)\)#2\[.*\]\.Offerings\[.*\]\) == "reserved"$`,
+			`instr:^mapupdate makemap<map\[string\]int>\[\(\*cloudprovider\.Offering\)\.ReservationID\(.*\)\] = .*\.ReservationCapacity$`,
+			`-^next\(range\(\$0\)\)#2\[.*\]\.Offerings\[.*\]\.ReservationCapacity < makemap<map\[string\]int>\[.*\]#0$`,
+		)), Note: "every reserved offering is compared with the table: skipped only if not reserved or not smaller than the entry"},
+		ITER{ID: "C17.ITER2", Fn: fn, Loop: itLoop, Gates: gates(G(offDone)), Note: "an instance type's turn ends only when all its offerings were visited"},
+		ITER{ID: "C17.ITER3", Fn: fn, Loop: poolLoop, Gates: gates(G(itDone)), Note: "a NodePool's turn ends only when all its instance types were visited"},
+		MPT{ID: "C17.MPT6", Fn: fn, Ret: core.RetAny, Gates: gates(G(poolDone)), Note: "the manager is returned only after every NodePool was visited"},
+	}
 }
 
 func c17RulesBase(tier string) []Rule {
